@@ -309,6 +309,7 @@ def worker(arg):
 def _strip(g):
     g = dict(g)
     g.pop("text", None)
+    g.pop("second", None)
     g["events"] = [e for e in g.get("events", []) if e[0] != "check_scope"]
     if "links" in g:
         g["links"] = sorted(g["links"], key=repr)
